@@ -2,6 +2,7 @@ package types
 
 import (
 	"fmt"
+	"reflect"
 )
 
 // JSONValue is an internal type used in storing various types, for converting any type to JSON supported type.
@@ -11,12 +12,21 @@ type JSONValue interface{}
 func ConvertValueList(values []interface{}) ([]interface{}, error) {
 	var jsonValues []interface{}
 	for _, val := range values {
-		if val == nil {
+		if IsNullValue(val) {
 			return nil, fmt.Errorf("null value cannot be inserted")
 		}
 		jsonValues = append(jsonValues, ConvertToJSONSupportedValue(val))
 	}
 	return jsonValues, nil
+}
+
+// IsNullValue returns true if the value is nil or a nil pointer, i.e., a value that JSON can express only as null.
+func IsNullValue(t interface{}) bool {
+	if t == nil {
+		return true
+	}
+	rv := reflect.ValueOf(t)
+	return rv.Kind() == reflect.Ptr && rv.IsNil()
 }
 
 // ToInterfaceArray transforms an array of JSNValues to the array of interfaces
